@@ -19,7 +19,8 @@ reports with a frame in the library are violations.
    they started while the owner of each receive buffer ciphers that buffer in place (cmd/codec's Shared events, Trace_C19).
    Schedules: aligned (all goroutines in the same operation kind at the same time, different argument values), staggered,
    alternating.  A mismatch counts only if the same cases, run single-threaded in a fresh process in that goroutine's exact
-   order, do not produce the same event (otherwise it is the family's own finding)."""
+   order, do not produce the same event (otherwise it is the family's own finding).
+Added after seeded rounds 4-5: refusal-path inputs and the unknown-identifier path of every decoder in the concurrent codec cases."""
 import copy, json, os, random, re, sys, time
 from concurrent.futures import ThreadPoolExecutor
 sys.path.insert(0, os.path.dirname(os.path.abspath(__file__)))
